@@ -32,7 +32,7 @@ DIRLIST = ("[url.HTMLURLHandler, gophermap.BuckGophermapHandler, mbox.MaildirFol
            "dir.DirHandler, html.HTMLFileTitleHandler, mbox.MBoxMessageHandler, mbox.MBoxFolderHandler, file.FileHandler]")
 HANDLERS = {"umn": "default", "dir": DIRLIST, "full": "full"}
 # faults that only bite with the full handler list (PYG modules, ZIP archives)
-FULL_KINDS = ["dotdot-pyg", "socket-zip", "fifo-zip", "dangling-zip", "broken-pyg", "noread-zip", "noread-pyg", "noread-sh"]
+FULL_KINDS = ["dotdot-pyg", "socket-zip", "fifo-zip", "dangling-zip", "broken-pyg", "unreadable:zip", "unreadable:pyg", "unreadable:sh"]
 # non-UTF-8 names with the shipped syslog logger in force
 # special files sitting where the server looks for METADATA of another entry: the sidecar of a file, the
 # abstract of the directory or of a sub-directory, a .cap file, the directory cache
@@ -48,6 +48,8 @@ SYSLOG_KINDS = ["dangling-latin1", "fifo-latin1", "dotdot-latin1", "vanished-lat
 
 
 def fault_name(kind, pos):
+    if kind.startswith("unreadable:"):
+        return POSITIONS[pos] + "-noread." + kind.split(":")[1]
     if ":" in kind:
         return META_NAMES[kind.split(":")[0]]
     if kind.startswith("dot-"):
@@ -59,8 +61,8 @@ def fault_name(kind, pos):
         return POSITIONS[pos] + "-noread.html"
     if kind == "noread-mbox":
         return POSITIONS[pos] + "-noread.mbox"
-    if kind in ("noread-zip", "noread-pyg", "noread-sh"):
-        return POSITIONS[pos] + "-noread." + kind.split("-")[1]
+    if kind.startswith("unreadable:"):
+        return POSITIONS[pos] + "-noread." + kind.split(":")[1]
     if kind == "dotdot-pyg":
         return POSITIONS[pos] + "a..b.pyg"
     if kind == "broken-pyg":
@@ -162,6 +164,11 @@ def _plant(root, d, kind, pos):
     p = os.path.join(root, d, name)
     sel = "/" + d + "/" + name
     p = os.fsencode(p) if "\udce9" in name else p
+    if kind.startswith("unreadable:"):
+        what = kind.split(":")[1]
+        rig.write_file(p, {"zip": worlds.make_zip([("a.txt", b"a\n")]), "pyg": worlds.PYG, "sh": worlds.SCRIPT}[what], mode=0o755 if what in ("pyg", "sh") else None)
+        _eopen.add(sel)
+        return name
     if ":" in kind:
         kind = kind.split(":")[1]
         os.makedirs(os.path.dirname(p), exist_ok=True)
@@ -196,10 +203,9 @@ def _plant(root, d, kind, pos):
             rig.write_file(p, b"Name=unreadable link file\nType=1\nPath=/x\nHost=h\nPort=70\n")
             _eopen.add(sel)
             return name
-    if kind in ("noread-html", "noread-mbox", "noread-zip", "noread-pyg", "noread-sh"):
+    if kind in ("noread-html", "noread-mbox"):
         # a file that is there (stat works) but may not be opened: handlers that look inside get EACCES
-        rig.write_file(p, {"noread-html": worlds.HTML, "noread-mbox": worlds.MBOX, "noread-zip": worlds.make_zip([("a.txt", b"a\n")]), "noread-pyg": worlds.PYG, "noread-sh": worlds.SCRIPT}[kind],
-                       mode=0o755 if kind in ("noread-pyg", "noread-sh") else None)
+        rig.write_file(p, {"noread-html": worlds.HTML, "noread-mbox": worlds.MBOX}[kind])
         _eopen.add(sel)
         return name
     if kind == "dangling":
